@@ -143,6 +143,10 @@ func VerifyFunc(P *Program, c *Contract, maxPaths int) (res *FuncResult) {
 	}
 	for _, o := range outs {
 		if o.panicked {
+			if c.PanicMaybe != "" {
+				fv.trusted["may panic ("+fv.name+"): "+c.PanicMaybe] = true
+				continue
+			}
 			allowed := False
 			if c.PanicWhen != nil {
 				pe := &Env{fv: fv, pkg: fv.pkgPath, st: fv.entry, vars: fv.entryEnv}
@@ -156,6 +160,9 @@ func VerifyFunc(P *Program, c *Contract, maxPaths int) (res *FuncResult) {
 			continue
 		}
 		post := &Env{fv: fv, pkg: fv.pkgPath, st: o.st, old: fv.entry, vars: map[string]TV{}}
+		for k, v := range fv.lets {
+			post.vars[k] = v
+		}
 		for k, v := range fv.entryEnv {
 			post.vars[k] = v
 		}
